@@ -4,7 +4,7 @@
    one bar and the barcode is a partition of the cells into pairs (birth, death) and unpaired births.
    Built on Reduce.v and RepCycle.v (vectors nat -> Z, "zero" = divisible by the prime p). *)
 From Coq Require Import ZArith Lia Znumtheory Arith List.
-Require Import Reduce RepCycle.
+Require Import Reduce ReduceExec RepCycle.
 Local Open Scope Z_scope.
 
 Section PosNeg.
@@ -190,3 +190,46 @@ Proof.
 Qed.
 
 End PosNeg.
+
+(* ------------------------------------------------------------------ the executable oracle
+   The list returned by certified_lows (the oracle of every persistence property: C02, C05-C08, C11-C14, C19) describes
+   a partition: when the input passes the verified chain-complex test, an entry Some b at index j (cell j kills the bar
+   born at b) forces the entry at index b to be None (cell b is positive), and no other index holds Some b. *)
+Section Oracle.
+Variable p : Z.
+Hypothesis Hp : prime p.
+
+Lemma nth_lows n (M : dmat) j : (j < n)%nat ->
+  nth j (lows p n M) None = low_of p n (to_mat M j).
+Proof.
+  intros Hj. unfold lows.
+  rewrite (nth_indep _ None (low_of p n (to_mat M 0%nat))) by (rewrite map_length, seq_length; exact Hj).
+  rewrite (map_nth (fun j0 => low_of p n (to_mat M j0)) (seq 0 n) 0%nat j).
+  rewrite seq_nth by exact Hj. reflexivity.
+Qed.
+
+Theorem certified_pairs_disjoint (D : dmat) (l : list (option nat)) :
+  check_chain_complex p (length D) D = true -> certified_lows p D = Some l ->
+  forall j b, (j < length D)%nat -> nth j l None = Some b ->
+    (b < length D)%nat /\ nth b l None = None /\
+    forall j', (j' < length D)%nat -> nth j' l None = Some b -> j' = j.
+Proof.
+  intros Hcc Hl j b Hj Hn.
+  unfold certified_lows in Hl.
+  destruct (reduce p (length D) D) as [R V] eqn:E.
+  destruct (check_RU p (length D) D R V) eqn:E0; [|discriminate].
+  inversion Hl; subst l; clear Hl.
+  set (n := length D) in *.
+  destruct (check_RU_sound p n D R V E0) as [Ht Hr].
+  pose proof (check_chain_complex_sound p n D Hcc) as HDD.
+  rewrite nth_lows in Hn by exact Hj.
+  apply (low_of_some p n) in Hn.
+  assert (Hb : (b < n)%nat) by (destruct Hn; assumption).
+  split; [exact Hb|]. split.
+  - rewrite nth_lows by exact Hb. apply (low_of_none p n).
+    exact (birth_column_is_zero p Hp n (to_mat D) (to_mat R) j b HDD Ht Hr Hj Hn).
+  - intros j' Hj' Hn'. rewrite nth_lows in Hn' by exact Hj'. apply (low_of_some p n) in Hn'.
+    destruct (Nat.eq_dec j' j) as [Eq|NE]; [exact Eq|].
+    exfalso. exact (Hr j' j b Hj' Hj NE Hn' Hn).
+Qed.
+End Oracle.
